@@ -93,7 +93,9 @@ func copyEDDSA(d eddsakeygen.LocalPartySaveData) eddsakeygen.LocalPartySaveData 
 
 // ---- ECDSA
 
-type ecdsaSet struct{ d []ecdsakeygen.LocalPartySaveData }
+type ecdsaSet struct {
+	d []ecdsakeygen.LocalPartySaveData
+}
 
 func (s *ecdsaSet) Curve() string     { return "secp256k1" }
 func (s *ecdsaSet) N() int            { return len(s.d) }
@@ -137,6 +139,11 @@ func (s *ecdsaSet) ReshareWorld(env *core.Env, seed int64, t int, newIDs []*big.
 	for i := range rot {
 		rot[i] = pre[(i+int(seed%5)+5)%5]
 	}
+	for i, pp := range o.PreOverride {
+		if i < len(rot) {
+			rot[i] = pp
+		}
+	}
 	return sim.ECDSAResharing(seed, s.d, t, newIDs, newT, rot, o), nil
 }
 func (s *ecdsaSet) FromEnded(w *sim.World, group string) (keyset, []string) {
@@ -157,7 +164,9 @@ func (s *ecdsaSet) FromEnded(w *sim.World, group string) (keyset, []string) {
 
 // ---- EdDSA
 
-type eddsaSet struct{ d []eddsakeygen.LocalPartySaveData }
+type eddsaSet struct {
+	d []eddsakeygen.LocalPartySaveData
+}
 
 func (s *eddsaSet) Curve() string     { return "ed25519" }
 func (s *eddsaSet) N() int            { return len(s.d) }
@@ -223,4 +232,3 @@ func loadKeyset(env *core.Env, curve string, n, t int, pattern string, label str
 	// always hand out a deep copy: resharing erases the caller-held Xi and the fixtures are cached per process
 	return (&ecdsaSet{k}).Copy(), nil
 }
-
